@@ -1,8 +1,9 @@
 CONSTANTS Chans = {1, 3} Rows = {0, 14} Chars = {65, 32} MaxPairs = 5
   Indents = {0, 28} Depths = {2, 3} Tabs = {1, 3}
   Kinds = {"RCL", "RDC", "EOC", "EDM", "ENM", "CR", "BS", "DER", "RU", "TO", "PAC", "MID", "SPC", "NULL", "TEXT"}
+  Beyond = {}
 SPECIFICATION Spec
 CONSTRAINT Bounded
 INVARIANTS CursorOK WindowOK
-PROPERTIES PopOnStable OneRep
+PROPERTIES PopOnStable OneRep RepWindow DerClears BsOne
 CHECK_DEADLOCK FALSE
